@@ -235,3 +235,139 @@ fn c10_n3_ref_count_steps() {
 	std::mem::forget(w); std::mem::forget(overlays); std::mem::forget(col);
 }
 }
+
+// =====================================================================================
+// C07.W / C09.W / C14.W: one write_plan step on keys that share an index page and a partial key (mapsub build:
+// the record's index page lives in the LogWriter's own map). The operation must act on the entry whose stored key
+// tail matches — also when it is not the first candidate — and leave the colliding neighbour alone; removing a
+// value also removes its index entry in the same record (no orphan entry), an absent key changes nothing.
+// =====================================================================================
+fn put_entry(page: &mut crate::index::Chunk, slot: usize, e: u64) {
+	let b = e.to_le_bytes();
+	let mut k = 0; while k < 8 { page.0[slot * 8 + k] = b[k]; k += 1; }
+}
+fn key_with_tail(tail: &[u8; 24]) -> Key {
+	let mut k = [0u8; 32];
+	k[0] = 0x12; k[1] = 0x34; k[2] = 0x56; k[3] = 0x78; k[4] = 0x9a; k[5] = 0xbc; k[6] = 0xde; k[7] = 0xf0;
+	let mut i = 0; while i < 24 { k[8 + i] = tail[i]; i += 1; }
+	k
+}
+fn put_value(w: &mut LogWriter, key: &Key, slot: u64, rc: Option<u32>, val: &[u8; 8]) {
+	let rcs = if rc.is_some() { 4 } else { 0 };
+	let mut v = Vec::with_capacity(40);
+	v.push((34 + rcs) as u8); v.push(0u8);
+	if let Some(c) = rc { let b = c.to_le_bytes(); let mut i = 0; while i < 4 { v.push(b[i]); i += 1; } }
+	let mut i = 0; while i < 26 { v.push(key[6 + i]); i += 1; }
+	let mut i = 0; while i < 8 { v.push(val[i]); i += 1; }
+	w.insert_value(ValueTableId::new(0, 1), slot, v);
+}
+
+/// op: 0 = Dereference, 1 = Reference, 2 = Set (existing key).  target: 0 = first candidate, 1 = second candidate, 2 = absent key.
+fn write_plan_case(op: u8, target: u8, ref_counted: bool) {
+	let col = {
+		let mut c = mini_mt(false, Vec::new(), 1, 0);
+		c.ref_counted = ref_counted;
+		c.preimage = ref_counted;
+		{
+			let mut t = c.tables.write();
+			t.value[1] = vt::mk(ValueTableId::new(0, 1), 64, false, ref_counted, 8);
+			vt::set_filled(&t.value[1], 4);
+			t.value[0] = vt::mk(ValueTableId::new(0, 0), 32, false, ref_counted, 8);
+			t.value[2] = vt::mk(ValueTableId::new(0, 2), 64, true, ref_counted, 8);
+			t.ref_count = None;
+		}
+		c.ref_count_cache = None;
+		c
+	};
+	let overlays = vl::new_overlays();
+	let mut w = LogWriter::new(&overlays, 1);
+	let t1: [u8; 24] = kani::any();
+	let t2: [u8; 24] = kani::any();
+	let t3: [u8; 24] = kani::any();
+	kani::assume(t1 != t2 && t3 != t1 && t3 != t2);
+	let (k1, k2, k3) = (key_with_tail(&t1), key_with_tail(&t2), key_with_tail(&t3));
+	let rc1: u32 = kani::any();
+	let rc2: u32 = kani::any();
+	kani::assume(rc1 >= 1 && rc1 < u32::MAX - 1 && rc2 >= 1 && rc2 < u32::MAX - 1);
+	let (v1, v2): ([u8; 8], [u8; 8]) = (kani::any(), kani::any());
+	put_value(&mut w, &k1, 1, if ref_counted { Some(rc1) } else { None }, &v1);
+	put_value(&mut w, &k2, 2, if ref_counted { Some(rc2) } else { None }, &v2);
+	let kp = TableKey::index_from_partial(&k1);
+	let it = crate::index::verif_kani::table(16);
+	let mut page = crate::index::Chunk([0u8; 512]);
+	put_entry(&mut page, 3, crate::index::verif_kani::entry_for(kp, Address::new(1, 1).as_u64(), 16));
+	put_entry(&mut page, 9, crate::index::verif_kani::entry_for(kp, Address::new(2, 1).as_u64(), 16));
+	let chunk = crate::index::verif_kani::chunk_index_of(&it, kp);
+	w.insert_index(it.id, chunk, 3, page);
+	crate::index::verif_kani::mirror_reset();
+	crate::index::verif_kani::mirror_page(0, it.id, chunk);
+	crate::index::verif_kani::mirror_entry(0, 3, crate::index::verif_kani::entry_for(kp, Address::new(1, 1).as_u64(), 16));
+	crate::index::verif_kani::mirror_entry(0, 9, crate::index::verif_kani::entry_for(kp, Address::new(2, 1).as_u64(), 16));
+	let writes0 = unsafe { vl::OV_WRITES };
+	let key = if target == 0 { k1 } else if target == 1 { k2 } else { k3 };
+	let newv: [u8; 8] = kani::any();
+	let change: Operation<Key, RcValue> = match op { 0 => Operation::Dereference(key), 1 => Operation::Reference(key), _ => Operation::Set(key, newv.to_vec().into()) };
+	let r = col.write_plan(&change, &mut w);
+	let outcome_ok = r.is_ok();
+	assert!(outcome_ok, "C07.W write_plan succeeds");
+	std::mem::forget(r);
+	// observe: value slots 1, 2 and the index page
+	let mut e1 = [0u8; 64]; let mut e2 = [0u8; 64];
+	vl::rec_get(&w, ValueTableId::new(0, 1), 1, &mut e1);
+	vl::rec_get(&w, ValueTableId::new(0, 1), 2, &mut e2);
+	let pg = LogQuery::with_index(&w, it.id, chunk, |c| (crate::index::verif_kani::entry_at(c, 3), crate::index::verif_kani::entry_at(c, 9), crate::index::verif_kani::entry_at(c, 0))).unwrap();
+	let ent1 = crate::index::verif_kani::entry_for(kp, Address::new(1, 1).as_u64(), 16);
+	let ent2 = crate::index::verif_kani::entry_for(kp, Address::new(2, 1).as_u64(), 16);
+	let hdr = if ref_counted { 6 } else { 2 };
+	let rc_of = |e: &[u8; 64]| u32::from_le_bytes([e[2], e[3], e[4], e[5]]);
+	let live = |e: &[u8; 64]| !(e[0] == 0xff && e[1] == 0xff);
+	if target == 2 {
+		assert!(unsafe { vl::OV_WRITES } == writes0 + if op == 2 { 1 } else { 0 } || op == 2, "C07.W operations on an absent key change no stored value");
+		assert!(live(&e1) && live(&e2) && pg.0 == ent1 && pg.1 == ent2, "C09.W an absent colliding key leaves both neighbours and their index entries alone");
+		if op == 2 { assert!(pg.2 != 0, "C09.W a new colliding key gets its own index entry in the first empty slot"); }
+	} else {
+		let (mine, other, mine_ent, other_ent, my_rc, other_rc, my_v) = if target == 0 { (&e1, &e2, pg.0, pg.1, rc1, rc2, &v1) } else { (&e2, &e1, pg.1, pg.0, rc2, rc1, &v2) };
+		assert!(live(other) && other_ent == if target == 0 { ent2 } else { ent1 }, "C09.W the colliding neighbour and its index entry are untouched");
+		if ref_counted { assert!(rc_of(other) == other_rc, "C07.W the neighbour's count is untouched"); }
+		match op {
+			0 => {
+				if !ref_counted || my_rc == 1 {
+					assert!(!live(mine), "C07.W value removed when its count reaches zero");
+					assert!(mine_ent == 0, "C14.W removing a value removes its index entry in the same record (no orphan entry)");
+				} else {
+					assert!(live(mine) && rc_of(mine) == my_rc - 1 && mine_ent != 0, "C07.W dereference lowers the count of the addressed key only");
+				}
+			},
+			1 => {
+				assert!(live(mine) && mine_ent != 0, "C07.W reference keeps value and index entry");
+				if ref_counted { assert!(rc_of(mine) == my_rc + 1, "C07.W reference raises the count of the addressed key only"); }
+			},
+			_ => {
+				assert!(live(mine) && mine_ent != 0, "C07.W set keeps the key readable");
+				if ref_counted { assert!(rc_of(mine) == my_rc + 1, "C07.W set on a present counted key raises its count"); }
+				else { let i: usize = kani::any(); kani::assume(i < 8); assert!(mine[hdr + 26 + i] == newv[i], "C07.W set replaces the value of the addressed key only"); let _ = my_v; }
+			},
+		}
+	}
+	kani::cover!(true);
+	std::mem::forget(change);
+	std::mem::forget(w); std::mem::forget(overlays); std::mem::forget(col); std::mem::forget(it);
+}
+
+macro_rules! c07_w {
+	($name:ident, $op:expr, $target:expr, $rc:expr) => {
+		crate::verif_tbl! {
+			#[kani::proof]
+			#[kani::unwind(66)]
+			#[kani::stub(crate::index::IndexTable::find_entry, crate::index::verif_kani::find_entry_contract)]
+			fn $name() { write_plan_case($op, $target, $rc) }
+		}
+	};
+}
+c07_w!(c07_w_deref_second_candidate_rc, 0, 1, true);
+c07_w!(c07_w_deref_second_candidate_plain, 0, 1, false);
+c07_w!(c07_w_deref_first_candidate_rc, 0, 0, true);
+c07_w!(c07_w_reference_second_candidate_rc, 1, 1, true);
+c07_w!(c07_w_set_second_candidate_rc, 2, 1, true);
+c07_w!(c07_w_set_second_candidate_plain, 2, 1, false);
+c07_w!(c07_w_deref_absent_key, 0, 2, true);
